@@ -295,6 +295,30 @@ impl Prop for C01 {
     fn profiles(&self, tier: Tier) -> Vec<(Profile, usize)> {
         vec![(p_rewind(), tier.pick(320, 4000)), (p_ctx(), tier.pick(80, 1000)), (p_sink(), tier.pick(60, 800))]
     }
+    fn custom_specs(&self, tier: Tier, r: &mut TestRunner) -> Vec<(&'static str, Spec)> {
+        // very long literals (chains of 30-60 single-predecessor states) next to ordinary rules
+        use oracle::re::{cat, plus, Re};
+        let mut out = vec![];
+        let letters = proptest::collection::vec(proptest::sample::select(vec!['a', 'b', 'c', '-']), 30..=60);
+        let small = {
+            let mut p = ReParams::basic(&ABC);
+            p.size = 5;
+            gen::re_strategy(&p)
+        };
+        for i in 0..tier.pick(12, 60) {
+            let w: String = sample(&letters, r).into_iter().collect();
+            let other = gen::fix_nullable(sample(&small, r), 'a');
+            let mut rules = vec![(Re::Str(w.clone()), None), (other, None), (plus(Re::Set(vec![oracle::re::SetItem::R('a', 'c')])), None), (Re::Char('-'), None)];
+            if i % 2 == 0 {
+                // a second long literal sharing a long prefix with the first
+                let mut w2: String = w.chars().take(w.chars().count() - 3).collect();
+                w2.push_str("cab");
+                rules.insert(1, (cat(Re::Str(w2), Re::Char('!')), None));
+            }
+            out.push(("long-literals", crate::props2::simple_spec(rules, i % 3 == 0, vec![])));
+        }
+        out
+    }
     fn adjust_spec(&self, mut spec: Spec, r: &mut TestRunner) -> Spec {
         // several rules matching the same lexemes (with different contexts): ties and fall-through
         let t = sample(&gen::tape_strategy(12), r);
